@@ -18,8 +18,14 @@ try:
     demo = f"cd {wt} && PYTHONPATH={wt} timeout 900 /venv/bin/python {src}/demo.py"
     rc0, out0 = sh(demo)
     res["demo_clean_rc"] = rc0
-    rc, out = sh(f"git -C {wt} apply --3way {src}/patch.diff 2>&1 || git -C {wt} apply {src}/patch.diff")
-    res["patch_applies"] = (sh(f"git -C {wt} diff --stat")[1].strip() != "")
+    pfile = f"{src}/patch.rebased.diff" if os.path.exists(f"{src}/patch.rebased.diff") else f"{src}/patch.diff"
+    rc, out = sh(f"git -C {wt} apply {pfile}")
+    if rc != 0:
+        sh(f"git -C {wt} checkout -- .")
+        rc, out = sh(f"git -C {wt} apply --3way {pfile}")
+    conflict = sh(f"grep -rl '^<<<<<<< ' {wt}/autode | head -1")[1].strip()
+    res["patch_file"] = os.path.basename(pfile)
+    res["patch_applies"] = (rc == 0 and not conflict and sh(f"git -C {wt} diff --stat")[1].strip() != "")
     rc1, out1 = sh(demo)
     res["demo_mutated_rc"] = rc1
     res["demo_mutated_tail"] = out1[-600:]
@@ -40,8 +46,9 @@ finally:
     sh(f"cd /verif && ./check {pid} --tier quick")
 dst = f"/verif/seeded/{name}"
 os.makedirs(dst, exist_ok=True)
-for f in ("patch.diff", "demo.py"):
-    shutil.copy(os.path.join(src, f), dst)
+for f in ("patch.diff", "demo.py", "patch.rebased.diff"):
+    if os.path.exists(os.path.join(src, f)):
+        shutil.copy(os.path.join(src, f), dst)
 meta = json.load(open(os.path.join(src, "meta.json"))) if os.path.exists(os.path.join(src, "meta.json")) else {}
 meta.update({"breaks_property": pid, "evaluation": res,
              "what_was_run": f"demo on clean + mutated scratch worktree; {'pinned suite via run_tests.py; ' if suite else ''}VERIF_REPO=<worktree> ./check {pid} --tier quick"})
